@@ -546,307 +546,312 @@ def run(repo, chk):
     qp = repo.cls(UTIL, "QualParam")
 
     # ---------------------------------------------------------------- R-C17-2
-    flow = {}
-    for name, val, node in enum_members(fu):
-        v = fold(val)
-        if not (isinstance(v, list) and len(v) == 2):
-            raise ExtractError("FlowUnits.%s value %s" % (name, unparse(val)))
-        flow[name] = (v[0], float(v[1]))
-        ref = REF_FLOW.get(name)
-        if ref is None:
-            chk.note("FlowUnits.%s has no reference definition (not checked)" % name)
-            continue
-        chk.expect(v[0] == ref[0], "R-C17-2", "FlowUnits.%s EN id" % name, loc(UTIL, node), expected=ref[0], found=v[0])
-        chk.expect(close(v[1], ref[1], 1e-8), "R-C17-2", "FlowUnits.%s factor equals its physical definition" % name, loc(UTIL, node),
-                   "flow factor to m3/s", expected=repr(ref[1]), found=repr(v[1]))
-    for name in REF_FLOW:
-        if name not in flow:
-            chk.bad("R-C17-2", "FlowUnits.%s exists" % name, loc(UTIL, fu), "member missing")
-    trad, f1 = membership_list(repo, "is_traditional")
-    metric, f2 = membership_list(repo, "is_metric")
-    chk.fn(f1, f2)
-    chk.expect(trad == TRAD, "R-C17-2", "FlowUnits.is_traditional members", loc(f1), "US units apply exactly to CFS, GPM, MGD, IMGD, AFD",
-               expected=sorted(TRAD), found=sorted(trad))
-    chk.expect(metric == METRIC, "R-C17-2", "FlowUnits.is_metric members", loc(f2), expected=sorted(METRIC), found=sorted(metric))
-    fac = repo.func(UTIL, "FlowUnits.factor")
-    s = unparse(fac)
-    chk.expect("value[1]" in s or "[1]" in s, "R-C17-2", "FlowUnits.factor returns the second tuple element", loc(fac))
-    mass = {}
-    for name, val, node in enum_members(mu):
-        v = fold(val)
-        mass[name] = float(v[1])
-        if name in REF_MASS:
-            chk.expect(close(v[1], REF_MASS[name], 1e-12), "R-C17-2", "MassUnits.%s factor to kg" % name, loc(UTIL, node), expected=REF_MASS[name], found=v[1])
-    mfac = repo.func(UTIL, "MassUnits.factor")
-    chk.expect("[1]" in unparse(mfac), "R-C17-2", "MassUnits.factor returns the second tuple element", loc(mfac))
-    chk.floor("R-C17-2", 11 * 2 + 2 + 4 + 2)
+    with chk.part("R-C17-2"):
+        flow = {}
+        for name, val, node in enum_members(fu):
+            v = fold(val)
+            if not (isinstance(v, list) and len(v) == 2):
+                raise ExtractError("FlowUnits.%s value %s" % (name, unparse(val)))
+            flow[name] = (v[0], float(v[1]))
+            ref = REF_FLOW.get(name)
+            if ref is None:
+                chk.note("FlowUnits.%s has no reference definition (not checked)" % name)
+                continue
+            chk.expect(v[0] == ref[0], "R-C17-2", "FlowUnits.%s EN id" % name, loc(UTIL, node), expected=ref[0], found=v[0])
+            chk.expect(close(v[1], ref[1], 1e-8), "R-C17-2", "FlowUnits.%s factor equals its physical definition" % name, loc(UTIL, node),
+                       "flow factor to m3/s", expected=repr(ref[1]), found=repr(v[1]))
+        for name in REF_FLOW:
+            if name not in flow:
+                chk.bad("R-C17-2", "FlowUnits.%s exists" % name, loc(UTIL, fu), "member missing")
+        trad, f1 = membership_list(repo, "is_traditional")
+        metric, f2 = membership_list(repo, "is_metric")
+        chk.fn(f1, f2)
+        chk.expect(trad == TRAD, "R-C17-2", "FlowUnits.is_traditional members", loc(f1), "US units apply exactly to CFS, GPM, MGD, IMGD, AFD",
+                   expected=sorted(TRAD), found=sorted(trad))
+        chk.expect(metric == METRIC, "R-C17-2", "FlowUnits.is_metric members", loc(f2), expected=sorted(METRIC), found=sorted(metric))
+        fac = repo.func(UTIL, "FlowUnits.factor")
+        s = unparse(fac)
+        chk.expect("value[1]" in s or "[1]" in s, "R-C17-2", "FlowUnits.factor returns the second tuple element", loc(fac))
+        mass = {}
+        for name, val, node in enum_members(mu):
+            v = fold(val)
+            mass[name] = float(v[1])
+            if name in REF_MASS:
+                chk.expect(close(v[1], REF_MASS[name], 1e-12), "R-C17-2", "MassUnits.%s factor to kg" % name, loc(UTIL, node), expected=REF_MASS[name], found=v[1])
+        mfac = repo.func(UTIL, "MassUnits.factor")
+        chk.expect("[1]" in unparse(mfac), "R-C17-2", "MassUnits.factor returns the second tuple element", loc(mfac))
+        chk.floor("R-C17-2", 11 * 2 + 2 + 4 + 2)
 
     # ---------------------------------------------------------------- R-C17-1
-    def unit_obj(name):
-        return Obj("FlowUnits." + name, {"factor": flow[name][1], "is_traditional": name in trad, "is_metric": name in metric, "name": name}, "FlowUnits")
+    with chk.part("R-C17-1"):
+        def unit_obj(name):
+            return Obj("FlowUnits." + name, {"factor": flow[name][1], "is_traditional": name in trad, "is_metric": name in metric, "name": name}, "FlowUnits")
 
-    def mass_obj(name):
-        return Obj("MassUnits." + name, {"factor": mass[name], "name": name}, "MassUnits")
+        def mass_obj(name):
+            return Obj("MassUnits." + name, {"factor": mass[name], "name": name}, "MassUnits")
 
-    hyd_members = [m[0] for m in enum_members(hp)]
-    qual_members = [m[0] for m in enum_members(qp)]
-    if len(hyd_members) < 15 or len(qual_members) < 8:
-        raise AnchorError("HydParam/QualParam members not found (%d, %d)" % (len(hyd_members), len(qual_members)))
+        hyd_members = [m[0] for m in enum_members(hp)]
+        qual_members = [m[0] for m in enum_members(qp)]
+        if len(hyd_members) < 15 or len(qual_members) < 8:
+            raise AnchorError("HydParam/QualParam members not found (%d, %d)" % (len(hyd_members), len(qual_members)))
 
-    def class_attr(d):
-        parts = d.split(".")
-        if len(parts) == 2:
-            c, m = parts
-            if c == "HydParam" and m in hyd_members:
-                return Obj(d, {}, c)
-            if c == "QualParam" and m in qual_members:
-                return Obj(d, {}, c)
-            if c == "FlowUnits" and m in flow:
-                return unit_obj(m)
-            if c == "MassUnits" and m in mass:
-                return mass_obj(m)
-        raise Unknown("unresolved name %s" % d)
+        def class_attr(d):
+            parts = d.split(".")
+            if len(parts) == 2:
+                c, m = parts
+                if c == "HydParam" and m in hyd_members:
+                    return Obj(d, {}, c)
+                if c == "QualParam" and m in qual_members:
+                    return Obj(d, {}, c)
+                if c == "FlowUnits" and m in flow:
+                    return unit_obj(m)
+                if c == "MassUnits" and m in mass:
+                    return mass_obj(m)
+            raise Unknown("unresolved name %s" % d)
 
-    def resolve_fn(qual):
-        return repo.func(UTIL, qual) if repo.has_func(UTIL, qual) else None
+        def resolve_fn(qual):
+            return repo.func(UTIL, qual) if repo.has_func(UTIL, qual) else None
 
-    def interpret(fn, selfobj, unit, data, **kw):
-        """the value `fn` returns for this configuration and this `data` (CEval: nothing of /repo is executed)."""
-        env = {"self": selfobj, "flow_units": unit, "data": data}
-        env.update(kw)
-        return CEval(env, class_attr, resolve_fn).run(fn.body)
+        def interpret(fn, selfobj, unit, data, **kw):
+            """the value `fn` returns for this configuration and this `data` (CEval: nothing of /repo is executed)."""
+            env = {"self": selfobj, "flow_units": unit, "data": data}
+            env.update(kw)
+            return CEval(env, class_attr, resolve_fn).run(fn.body)
 
-    def evaluate(fn, selfobj, unit, **kw):
-        try:
-            r = interpret(fn, selfobj, unit, Lin(1.0, 0.0), **kw)
-        except ProgError as e:
-            raise Raised(e)
-        if not isinstance(r, Lin):
-            raise ExtractError("%s did not return a linear form for %s/%s (%r)" % (fn._qual, selfobj.name, unit.name, r))
-        return r
+        def evaluate(fn, selfobj, unit, **kw):
+            try:
+                r = interpret(fn, selfobj, unit, Lin(1.0, 0.0), **kw)
+            except ProgError as e:
+                raise Raised(e)
+            if not isinstance(r, Lin):
+                raise ExtractError("%s did not return a linear form for %s/%s (%r)" % (fn._qual, selfobj.name, unit.name, r))
+            return r
 
-    fns = {k: repo.func(UTIL, k) for k in ("HydParam._to_si", "HydParam._from_si", "QualParam._to_si", "QualParam._from_si")}
-    chk.fn(*fns.values())
-    nconf = 0
-    for p in hyd_members:
-        for u in sorted(flow):
-            for dw in (False, True):
-                a = evaluate(fns["HydParam._to_si"], Obj("HydParam." + p, {}, "HydParam"), unit_obj(u), darcy_weisbach=dw)
-                b = evaluate(fns["HydParam._from_si"], Obj("HydParam." + p, {}, "HydParam"), unit_obj(u), darcy_weisbach=dw)
-                nconf += 1
-                cfg = "HydParam.%s/%s%s" % (p, u, "/darcy_weisbach" if dw else "")
-                chk.expect(a.c == 0 and b.c == 0 and a.k != 0 and b.k != 0, "R-C17-1a", "%s is linear (no additive term, non-zero factor)" % cfg, loc(fns["HydParam._to_si"]), found=(a, b))
-                chk.expect(close(a.k * b.k, 1.0, 1e-9), "R-C17-1b", "%s: from_si is the inverse of to_si" % cfg, loc(fns["HydParam._from_si"]),
-                           "k_to * k_from must be 1", expected="k_from = %r" % (1.0 / a.k if a.k else None), found="k_to=%r k_from=%r" % (a.k, b.k))
-                ref = ref_hyd(p, u, REF_FLOW[u][1] if u in REF_FLOW else flow[u][1], dw)
-                if ref is None:
-                    chk.note("HydParam.%s has no reference constant (only linearity/inverse checked)" % p)
-                else:
-                    chk.expect(close(a.k, ref, 1e-8), "R-C17-1c", "%s: to_si factor equals the physical constant" % cfg, loc(fns["HydParam._to_si"]),
-                               expected=repr(ref), found=repr(a.k))
-                if p in ("Pressure", "Power", "Flow", "Length") and u in ("GPM", "LPS") and not dw:
-                    chk.sample({"config": cfg, "k_to_si": a.k, "k_from_si": b.k, "reference": ref})
-    orders = (0, 1, 2)
-    for p in qual_members:
-        for u in sorted(flow):
-            for mname in sorted(mass):
-                for o in orders:
-                    kw = dict(mass_units=mass_obj(mname), reaction_order=o)
-                    a = evaluate(fns["QualParam._to_si"], Obj("QualParam." + p, {}, "QualParam"), unit_obj(u), **kw)
-                    b = evaluate(fns["QualParam._from_si"], Obj("QualParam." + p, {}, "QualParam"), unit_obj(u), **kw)
+        fns = {k: repo.func(UTIL, k) for k in ("HydParam._to_si", "HydParam._from_si", "QualParam._to_si", "QualParam._from_si")}
+        chk.fn(*fns.values())
+        nconf = 0
+        for p in hyd_members:
+            for u in sorted(flow):
+                for dw in (False, True):
+                    a = evaluate(fns["HydParam._to_si"], Obj("HydParam." + p, {}, "HydParam"), unit_obj(u), darcy_weisbach=dw)
+                    b = evaluate(fns["HydParam._from_si"], Obj("HydParam." + p, {}, "HydParam"), unit_obj(u), darcy_weisbach=dw)
                     nconf += 1
-                    cfg = "QualParam.%s/%s/%s/order%d" % (p, u, mname, o)
-                    chk.expect(a.c == 0 and b.c == 0 and a.k != 0 and b.k != 0, "R-C17-1a", "%s is linear" % cfg, loc(fns["QualParam._to_si"]), found=(a, b))
-                    chk.expect(close(a.k * b.k, 1.0, 1e-9), "R-C17-1b", "%s: from_si is the inverse of to_si" % cfg, loc(fns["QualParam._from_si"]),
-                               "k_to * k_from must be 1", found="k_to=%r k_from=%r" % (a.k, b.k))
-                    ref = ref_qual(p, u, REF_MASS.get(mname, mass[mname]), o)
-                    if ref is not None:
-                        chk.expect(close(a.k, ref, 1e-8), "R-C17-1c", "%s: to_si factor equals the physical constant" % cfg, loc(fns["QualParam._to_si"]),
+                    cfg = "HydParam.%s/%s%s" % (p, u, "/darcy_weisbach" if dw else "")
+                    chk.expect(a.c == 0 and b.c == 0 and a.k != 0 and b.k != 0, "R-C17-1a", "%s is linear (no additive term, non-zero factor)" % cfg, loc(fns["HydParam._to_si"]), found=(a, b))
+                    chk.expect(close(a.k * b.k, 1.0, 1e-9), "R-C17-1b", "%s: from_si is the inverse of to_si" % cfg, loc(fns["HydParam._from_si"]),
+                               "k_to * k_from must be 1", expected="k_from = %r" % (1.0 / a.k if a.k else None), found="k_to=%r k_from=%r" % (a.k, b.k))
+                    ref = ref_hyd(p, u, REF_FLOW[u][1] if u in REF_FLOW else flow[u][1], dw)
+                    if ref is None:
+                        chk.note("HydParam.%s has no reference constant (only linearity/inverse checked)" % p)
+                    else:
+                        chk.expect(close(a.k, ref, 1e-8), "R-C17-1c", "%s: to_si factor equals the physical constant" % cfg, loc(fns["HydParam._to_si"]),
                                    expected=repr(ref), found=repr(a.k))
-                    if p in ("WallReactionCoeff",) and u in ("GPM", "LPS") and mname == "mg":
+                    if p in ("Pressure", "Power", "Flow", "Length") and u in ("GPM", "LPS") and not dw:
                         chk.sample({"config": cfg, "k_to_si": a.k, "k_from_si": b.k, "reference": ref})
-    # mass_units=None: whatever the forward function accepts, its inverse must accept (sibling agreement), and be its inverse
-    n_none = 0
-    for p in qual_members:
-        for u in ("GPM", "LPS"):
-            for o in orders:
-                cfg = "QualParam.%s/%s/mass_units=None/order%d" % (p, u, o)
-                try:
-                    a = evaluate(fns["QualParam._to_si"], Obj("QualParam." + p, {}, "QualParam"), unit_obj(u), mass_units=None, reaction_order=o)
-                except (Unknown, Raised) as e:
-                    chk.note("QualParam._to_si with mass_units=None is not defined for %s (%s)" % (cfg, e))
-                    continue
-                n_none += 1
-                try:
-                    b = evaluate(fns["QualParam._from_si"], Obj("QualParam." + p, {}, "QualParam"), unit_obj(u), mass_units=None, reaction_order=o)
-                except (Unknown, Raised) as e:
-                    chk.bad("R-C17-1d", "%s: from_si accepts what to_si accepts" % cfg, loc(fns["QualParam._from_si"]),
-                            "to_si maps mass_units=None to a default unit; from_si fails on the same arguments (%s)" % e)
-                    continue
-                chk.expect(close(a.k * b.k, 1.0, 1e-9), "R-C17-1d", "%s: from_si is the inverse of to_si" % cfg, loc(fns["QualParam._from_si"]),
-                           found="k_to=%r k_from=%r" % (a.k, b.k))
-    chk.extra["configurations"] = nconf
-    chk.extra["exhaustive"] = True
-    chk.floor("R-C17-1b", 15 * 11 * 2 + 8 * 11 * 4 * 3)
+        orders = (0, 1, 2)
+        for p in qual_members:
+            for u in sorted(flow):
+                for mname in sorted(mass):
+                    for o in orders:
+                        kw = dict(mass_units=mass_obj(mname), reaction_order=o)
+                        a = evaluate(fns["QualParam._to_si"], Obj("QualParam." + p, {}, "QualParam"), unit_obj(u), **kw)
+                        b = evaluate(fns["QualParam._from_si"], Obj("QualParam." + p, {}, "QualParam"), unit_obj(u), **kw)
+                        nconf += 1
+                        cfg = "QualParam.%s/%s/%s/order%d" % (p, u, mname, o)
+                        chk.expect(a.c == 0 and b.c == 0 and a.k != 0 and b.k != 0, "R-C17-1a", "%s is linear" % cfg, loc(fns["QualParam._to_si"]), found=(a, b))
+                        chk.expect(close(a.k * b.k, 1.0, 1e-9), "R-C17-1b", "%s: from_si is the inverse of to_si" % cfg, loc(fns["QualParam._from_si"]),
+                                   "k_to * k_from must be 1", found="k_to=%r k_from=%r" % (a.k, b.k))
+                        ref = ref_qual(p, u, REF_MASS.get(mname, mass[mname]), o)
+                        if ref is not None:
+                            chk.expect(close(a.k, ref, 1e-8), "R-C17-1c", "%s: to_si factor equals the physical constant" % cfg, loc(fns["QualParam._to_si"]),
+                                       expected=repr(ref), found=repr(a.k))
+                        if p in ("WallReactionCoeff",) and u in ("GPM", "LPS") and mname == "mg":
+                            chk.sample({"config": cfg, "k_to_si": a.k, "k_from_si": b.k, "reference": ref})
+        # mass_units=None: whatever the forward function accepts, its inverse must accept (sibling agreement), and be its inverse
+        n_none = 0
+        for p in qual_members:
+            for u in ("GPM", "LPS"):
+                for o in orders:
+                    cfg = "QualParam.%s/%s/mass_units=None/order%d" % (p, u, o)
+                    try:
+                        a = evaluate(fns["QualParam._to_si"], Obj("QualParam." + p, {}, "QualParam"), unit_obj(u), mass_units=None, reaction_order=o)
+                    except (Unknown, Raised) as e:
+                        chk.note("QualParam._to_si with mass_units=None is not defined for %s (%s)" % (cfg, e))
+                        continue
+                    n_none += 1
+                    try:
+                        b = evaluate(fns["QualParam._from_si"], Obj("QualParam." + p, {}, "QualParam"), unit_obj(u), mass_units=None, reaction_order=o)
+                    except (Unknown, Raised) as e:
+                        chk.bad("R-C17-1d", "%s: from_si accepts what to_si accepts" % cfg, loc(fns["QualParam._from_si"]),
+                                "to_si maps mass_units=None to a default unit; from_si fails on the same arguments (%s)" % e)
+                        continue
+                    chk.expect(close(a.k * b.k, 1.0, 1e-9), "R-C17-1d", "%s: from_si is the inverse of to_si" % cfg, loc(fns["QualParam._from_si"]),
+                               found="k_to=%r k_from=%r" % (a.k, b.k))
+        chk.extra["configurations"] = nconf
+        chk.extra["exhaustive"] = True
+        chk.floor("R-C17-1b", 15 * 11 * 2 + 8 * 11 * 4 * 3)
 
     # ---------------------------------------------------------------- R-C17-3 containers
-    # Each of the four methods is interpreted on a concrete dict / list / array / DataFrame whose elements are the symbolic
-    # value scaled by distinct primes (so a permuted, dropped or unconverted element is visible), for every parameter x {US, metric}
-    # unit x flag.  The scalar factor of the same configuration (R-C17-1) says what every element must have become.
-    PRIMES = (2.0, 3.0, 5.0)
-    KEYS = ("n2", "n3", "n1")        # insertion order differs from sorted order: a result assembled from re-ordered keys is visible
-    IDX, COLS = ("row-labels",), ("column-labels",)
+    with chk.part("R-C17-3 containers"):
+        # Each of the four methods is interpreted on a concrete dict / list / array / DataFrame whose elements are the symbolic
+        # value scaled by distinct primes (so a permuted, dropped or unconverted element is visible), for every parameter x {US, metric}
+        # unit x flag.  The scalar factor of the same configuration (R-C17-1) says what every element must have become.
+        PRIMES = (2.0, 3.0, 5.0)
+        KEYS = ("n2", "n3", "n1")        # insertion order differs from sorted order: a result assembled from re-ordered keys is visible
+        IDX, COLS = ("row-labels",), ("column-labels",)
 
-    def make_input(kind):
-        elts = [Lin(p, 0.0) for p in PRIMES]
-        if kind == "dict":
-            return dict(zip(KEYS, elts))
-        if kind == "list":
-            return elts
-        if kind == "ndarray":
-            return Arr(elts)
-        return Frame(Arr(elts), IDX, COLS)
+        def make_input(kind):
+            elts = [Lin(p, 0.0) for p in PRIMES]
+            if kind == "dict":
+                return dict(zip(KEYS, elts))
+            if kind == "list":
+                return elts
+            if kind == "ndarray":
+                return Arr(elts)
+            return Frame(Arr(elts), IDX, COLS)
 
-    def converted(vals, k):
-        vals = list(vals)
-        return len(vals) == len(PRIMES) and all(isinstance(v, Lin) and v.c == 0 and close(v.k, p * k, 1e-12) for v, p in zip(vals, PRIMES))
+        def converted(vals, k):
+            vals = list(vals)
+            return len(vals) == len(PRIMES) and all(isinstance(v, Lin) and v.c == 0 and close(v.k, p * k, 1e-12) for v, p in zip(vals, PRIMES))
 
-    def tname(r):
-        return {"Arr": "ndarray", "Arr0": "ndarray(0-d object)", "Frame": "DataFrame", "Lin": "float"}.get(type(r).__name__, type(r).__name__)
+        def tname(r):
+            return {"Arr": "ndarray", "Arr0": "ndarray(0-d object)", "Frame": "DataFrame", "Lin": "float"}.get(type(r).__name__, type(r).__name__)
 
-    def outcome(kind, r, k):
-        """(type of the result, None) or (type, what is wrong with it)"""
-        if kind == "dict":
-            if type(r) is not dict:
-                return tname(r), "a dictionary goes in, %r comes out" % (r,)
-            if set(r) != set(KEYS):
-                return "dict", "keys %s instead of the original %s" % (sorted(r, key=repr), list(KEYS))
-            if not converted([r[x] for x in KEYS], k):
-                return "dict", "values are not the converted values of their keys: %r" % (r,)
-            return "dict", None
-        if kind in ("list", "ndarray"):
-            want = {"list": list, "ndarray": Arr}[kind]
-            if type(r) is not want:
-                return tname(r), "a %s goes in, %r comes out" % (kind, r)
-            if not converted(r, k):
-                return kind, "elements are not converted one by one in order: %r" % (r,)
-            return kind, None
-        if not isinstance(r, Frame):
-            return tname(r), "a DataFrame goes in, %r comes out" % (r,)
-        if r.index is not IDX or r.columns is not COLS:
-            return "DataFrame", "labels are not those of the input"
-        if not (isinstance(r.values, Arr) and converted(r.values, k)):
-            return "DataFrame", "values are not converted: %r" % (r.values,)
-        return "DataFrame", None
+        def outcome(kind, r, k):
+            """(type of the result, None) or (type, what is wrong with it)"""
+            if kind == "dict":
+                if type(r) is not dict:
+                    return tname(r), "a dictionary goes in, %r comes out" % (r,)
+                if set(r) != set(KEYS):
+                    return "dict", "keys %s instead of the original %s" % (sorted(r, key=repr), list(KEYS))
+                if not converted([r[x] for x in KEYS], k):
+                    return "dict", "values are not the converted values of their keys: %r" % (r,)
+                return "dict", None
+            if kind in ("list", "ndarray"):
+                want = {"list": list, "ndarray": Arr}[kind]
+                if type(r) is not want:
+                    return tname(r), "a %s goes in, %r comes out" % (kind, r)
+                if not converted(r, k):
+                    return kind, "elements are not converted one by one in order: %r" % (r,)
+                return kind, None
+            if not isinstance(r, Frame):
+                return tname(r), "a DataFrame goes in, %r comes out" % (r,)
+            if r.index is not IDX or r.columns is not COLS:
+                return "DataFrame", "labels are not those of the input"
+            if not (isinstance(r.values, Arr) and converted(r.values, k)):
+                return "DataFrame", "values are not converted: %r" % (r.values,)
+            return "DataFrame", None
 
-    def configs(key):
-        cls = key.split(".")[0]
-        for p in (hyd_members if cls == "HydParam" else qual_members):
-            for u in ("GPM", "LPS"):
-                for flag in ((False, True) if cls == "HydParam" else (0, 1)):
-                    kw = dict(darcy_weisbach=flag) if cls == "HydParam" else dict(mass_units=mass_obj("mg"), reaction_order=flag)
-                    yield "%s.%s/%s/%s" % (cls, p, u, flag), Obj("%s.%s" % (cls, p), {}, cls), unit_obj(u), kw
+        def configs(key):
+            cls = key.split(".")[0]
+            for p in (hyd_members if cls == "HydParam" else qual_members):
+                for u in ("GPM", "LPS"):
+                    for flag in ((False, True) if cls == "HydParam" else (0, 1)):
+                        kw = dict(darcy_weisbach=flag) if cls == "HydParam" else dict(mass_units=mass_obj("mg"), reaction_order=flag)
+                        yield "%s.%s/%s/%s" % (cls, p, u, flag), Obj("%s.%s" % (cls, p), {}, cls), unit_obj(u), kw
 
-    KINDS = ("dict", "list", "ndarray", "dataframe")     # tuples are not documented inputs: tuple * int repeats, tuple * float raises
-    behaviour = {}
-    for key, fn in fns.items():
-        res = {kind: {"types": set(), "raised": [], "wrong": []} for kind in KINDS}
-        for cfg, selfobj, unit, kw in configs(key):
-            k = evaluate(fn, selfobj, unit, **kw).k
-            for kind in KINDS:
-                try:
-                    r = interpret(fn, selfobj, unit, make_input(kind), **kw)
-                except ProgError as e:
-                    res[kind]["types"].add("raises")
-                    res[kind]["raised"].append("%s: %s" % (cfg, e))
-                    continue
-                t, wrong = outcome(kind, r, k)
-                res[kind]["types"].add(t)
-                if wrong:
-                    res[kind]["wrong"].append("%s: %s" % (cfg, wrong))
-        behaviour[key] = {kind: "/".join(sorted(res[kind]["types"])) + ("(wrong values)" if res[kind]["wrong"] else "") for kind in KINDS}
-        d, l = res["dict"], res["list"]
-        chk.expect(not d["raised"], "R-C17-3", "%s: dict values are materialised as a list before np.array" % key, loc(fn),
-                   "a dictionary must be accepted: np.array(data.values()) builds a 0-d object array, every arithmetic on it raises TypeError",
-                   expected="no exception for any parameter / unit", found=d["raised"][:2] or None)
-        chk.expect(not d["raised"] and not d["wrong"], "R-C17-3", "%s: dict result is rebuilt with the original keys" % key, loc(fn),
-                   "dict in -> dict out, same keys, every value converted with the factor of the scalar case", found=(d["wrong"] or d["raised"])[:2] or None)
-        chk.expect(not l["raised"] and not l["wrong"], "R-C17-3", "%s: list input is returned as a list" % key, loc(fn),
-                   "list in -> list out, every element converted in order", found=(l["wrong"] or l["raised"])[:2] or None)
-        f = res["dataframe"]
-        chk.expect(not f["raised"] and not f["wrong"], "R-C17-3", "%s: DataFrame input is returned as a DataFrame with its labels" % key, loc(fn),
-                   found=(f["wrong"] or f["raised"])[:2] or None)
-    votes = {}
-    for key in fns:
-        votes.setdefault(tuple(sorted(behaviour[key].items())), []).append(key)
-    base = dict(max(votes, key=lambda b: (len(votes[b]), "HydParam._from_si" in votes[b])))      # what most of the four do
-    for key in fns:
-        chk.expect(behaviour[key] == base, "R-C17-3", "%s handles the same container kinds as its siblings" % key, loc(fns[key]),
-                   "result type per input kind (dict, list, ndarray, DataFrame), compared with what most of the four methods do", expected=base, found=behaviour[key])
-    chk.floor("R-C17-3", 4 * 5)
+        KINDS = ("dict", "list", "ndarray", "dataframe")     # tuples are not documented inputs: tuple * int repeats, tuple * float raises
+        behaviour = {}
+        for key, fn in fns.items():
+            res = {kind: {"types": set(), "raised": [], "wrong": []} for kind in KINDS}
+            for cfg, selfobj, unit, kw in configs(key):
+                k = evaluate(fn, selfobj, unit, **kw).k
+                for kind in KINDS:
+                    try:
+                        r = interpret(fn, selfobj, unit, make_input(kind), **kw)
+                    except ProgError as e:
+                        res[kind]["types"].add("raises")
+                        res[kind]["raised"].append("%s: %s" % (cfg, e))
+                        continue
+                    t, wrong = outcome(kind, r, k)
+                    res[kind]["types"].add(t)
+                    if wrong:
+                        res[kind]["wrong"].append("%s: %s" % (cfg, wrong))
+            behaviour[key] = {kind: "/".join(sorted(res[kind]["types"])) + ("(wrong values)" if res[kind]["wrong"] else "") for kind in KINDS}
+            d, l = res["dict"], res["list"]
+            chk.expect(not d["raised"], "R-C17-3", "%s: dict values are materialised as a list before np.array" % key, loc(fn),
+                       "a dictionary must be accepted: np.array(data.values()) builds a 0-d object array, every arithmetic on it raises TypeError",
+                       expected="no exception for any parameter / unit", found=d["raised"][:2] or None)
+            chk.expect(not d["raised"] and not d["wrong"], "R-C17-3", "%s: dict result is rebuilt with the original keys" % key, loc(fn),
+                       "dict in -> dict out, same keys, every value converted with the factor of the scalar case", found=(d["wrong"] or d["raised"])[:2] or None)
+            chk.expect(not l["raised"] and not l["wrong"], "R-C17-3", "%s: list input is returned as a list" % key, loc(fn),
+                       "list in -> list out, every element converted in order", found=(l["wrong"] or l["raised"])[:2] or None)
+            f = res["dataframe"]
+            chk.expect(not f["raised"] and not f["wrong"], "R-C17-3", "%s: DataFrame input is returned as a DataFrame with its labels" % key, loc(fn),
+                       found=(f["wrong"] or f["raised"])[:2] or None)
+        votes = {}
+        for key in fns:
+            votes.setdefault(tuple(sorted(behaviour[key].items())), []).append(key)
+        base = dict(max(votes, key=lambda b: (len(votes[b]), "HydParam._from_si" in votes[b])))      # what most of the four do
+        for key in fns:
+            chk.expect(behaviour[key] == base, "R-C17-3", "%s handles the same container kinds as its siblings" % key, loc(fns[key]),
+                       "result type per input kind (dict, list, ndarray, DataFrame), compared with what most of the four methods do", expected=base, found=behaviour[key])
+        chk.floor("R-C17-3", 4 * 5)
 
     # ---------------------------------------------------------------- R-C17-4 dispatch
-    for fname, meth, unitarg in (("to_si", "_to_si", "from_units"), ("from_si", "_from_si", "to_units")):
-        fn = repo.func(UTIL, fname)
-        chk.fn(fn)
-        got = {}
-        for n in walk(fn):
-            if isinstance(n, ast.If) and isinstance(n.test, ast.Call) and call_name(n.test) == "isinstance":
-                cls = unparse(n.test.args[1])
-                rets = [s for s in n.body if isinstance(s, ast.Return) and isinstance(s.value, ast.Call)]
-                if rets:
-                    c = rets[0].value
-                    got[cls] = (call_name(c), [unparse(a) for a in c.args] + ["%s=%s" % (k.arg, unparse(k.value)) for k in c.keywords])
-        want = {"HydParam": ("param." + meth, [unitarg, "data", "darcy_weisbach"]),
-                "QualParam": ("param." + meth, [unitarg, "data", "mass_units", "reaction_order"])}
-        for cls, (cn, args) in want.items():
-            g = got.get(cls)
-            okk = g is not None and g[0] == cn
-            if okk:
-                # positional order must match the callee's signature; keywords are accepted too
-                callee = fns["%s.%s" % (cls, meth)]
-                params = [a.arg for a in callee.args.args][1:]
-                bound = {}
-                pos = [a for a in g[1] if "=" not in a]
-                for pn, a in zip(params, pos):
-                    bound[pn] = a
-                for a in g[1]:
-                    if "=" in a:
-                        k, v = a.split("=", 1)
-                        bound[k] = v
-                wantb = dict(zip(params, args))
-                okk = all(bound.get(k) == v for k, v in wantb.items())
-            chk.expect(okk, "R-C17-4", "%s dispatches %s to %s with every flag forwarded" % (fname, cls, meth), loc(fn),
-                       expected=(cn, args), found=g)
-    chk.floor("R-C17-4", 4)
+    with chk.part("R-C17-4 dispatch"):
+        for fname, meth, unitarg in (("to_si", "_to_si", "from_units"), ("from_si", "_from_si", "to_units")):
+            fn = repo.func(UTIL, fname)
+            chk.fn(fn)
+            got = {}
+            for n in walk(fn):
+                if isinstance(n, ast.If) and isinstance(n.test, ast.Call) and call_name(n.test) == "isinstance":
+                    cls = unparse(n.test.args[1])
+                    rets = [s for s in n.body if isinstance(s, ast.Return) and isinstance(s.value, ast.Call)]
+                    if rets:
+                        c = rets[0].value
+                        got[cls] = (call_name(c), [unparse(a) for a in c.args] + ["%s=%s" % (k.arg, unparse(k.value)) for k in c.keywords])
+            want = {"HydParam": ("param." + meth, [unitarg, "data", "darcy_weisbach"]),
+                    "QualParam": ("param." + meth, [unitarg, "data", "mass_units", "reaction_order"])}
+            for cls, (cn, args) in want.items():
+                g = got.get(cls)
+                okk = g is not None and g[0] == cn
+                if okk:
+                    # positional order must match the callee's signature; keywords are accepted too
+                    callee = fns["%s.%s" % (cls, meth)]
+                    params = [a.arg for a in callee.args.args][1:]
+                    bound = {}
+                    pos = [a for a in g[1] if "=" not in a]
+                    for pn, a in zip(params, pos):
+                        bound[pn] = a
+                    for a in g[1]:
+                        if "=" in a:
+                            k, v = a.split("=", 1)
+                            bound[k] = v
+                    wantb = dict(zip(params, args))
+                    okk = all(bound.get(k) == v for k, v in wantb.items())
+                chk.expect(okk, "R-C17-4", "%s dispatches %s to %s with every flag forwarded" % (fname, cls, meth), loc(fn),
+                           expected=(cn, args), found=g)
+        chk.floor("R-C17-4", 4)
 
     # ---------------------------------------------------------------- R-C17-5 the two directions default every option alike
-    # from_si(u, to_si(u, x, p), p) must be x when the optional arguments are OMITTED too: a default that differs between the forward
-    # function and its inverse (reaction_order 1 one way, 0 the other) makes the round trip wrong by the conversion factor.
-    def defaults(fn, skip):
-        a = fn.args
-        names = [x.arg for x in a.args]
-        out = {}
-        for nm, dv in zip(names[len(names) - len(a.defaults):], a.defaults):
-            out[nm] = unparse(dv)
-        for x, dv in zip(a.kwonlyargs, a.kw_defaults):
-            if dv is not None:
-                out[x.arg] = unparse(dv)
-        for nm in names[skip:]:
-            out.setdefault(nm, "<required>")
-        return out
-    pairs = [("to_si", "from_si", repo.func(UTIL, "to_si"), repo.func(UTIL, "from_si"), 1),
-             ("HydParam._to_si", "HydParam._from_si", fns["HydParam._to_si"], fns["HydParam._from_si"], 2),
-             ("QualParam._to_si", "QualParam._from_si", fns["QualParam._to_si"], fns["QualParam._from_si"], 2)]
-    for an, bn, fa, fb, skip in pairs:
-        da, db = defaults(fa, skip), defaults(fb, skip)
-        for opt in sorted(set(da) | set(db)):
-            if opt in ("data", "param"):
-                continue
-            chk.expect(da.get(opt) == db.get(opt), "R-C17-5", "%s and %s give the option %r the same default" % (an, bn, opt), loc(fb),
-                       "with the option omitted on both sides the inverse must undo the forward conversion", expected="%s=%s (as %s)" % (opt, da.get(opt), an),
-                       found="%s=%s" % (opt, db.get(opt)))
-    chk.floor("R-C17-5", 6)
+    with chk.part("R-C17-5 the two directions default every option alike"):
+        # from_si(u, to_si(u, x, p), p) must be x when the optional arguments are OMITTED too: a default that differs between the forward
+        # function and its inverse (reaction_order 1 one way, 0 the other) makes the round trip wrong by the conversion factor.
+        def defaults(fn, skip):
+            a = fn.args
+            names = [x.arg for x in a.args]
+            out = {}
+            for nm, dv in zip(names[len(names) - len(a.defaults):], a.defaults):
+                out[nm] = unparse(dv)
+            for x, dv in zip(a.kwonlyargs, a.kw_defaults):
+                if dv is not None:
+                    out[x.arg] = unparse(dv)
+            for nm in names[skip:]:
+                out.setdefault(nm, "<required>")
+            return out
+        pairs = [("to_si", "from_si", repo.func(UTIL, "to_si"), repo.func(UTIL, "from_si"), 1),
+                 ("HydParam._to_si", "HydParam._from_si", fns["HydParam._to_si"], fns["HydParam._from_si"], 2),
+                 ("QualParam._to_si", "QualParam._from_si", fns["QualParam._to_si"], fns["QualParam._from_si"], 2)]
+        for an, bn, fa, fb, skip in pairs:
+            da, db = defaults(fa, skip), defaults(fb, skip)
+            for opt in sorted(set(da) | set(db)):
+                if opt in ("data", "param"):
+                    continue
+                chk.expect(da.get(opt) == db.get(opt), "R-C17-5", "%s and %s give the option %r the same default" % (an, bn, opt), loc(fb),
+                           "with the option omitted on both sides the inverse must undo the forward conversion", expected="%s=%s (as %s)" % (opt, da.get(opt), an),
+                           found="%s=%s" % (opt, db.get(opt)))
+        chk.floor("R-C17-5", 6)
 
 
 WITNESSES = [
